@@ -152,7 +152,7 @@ func TestEngine(t *testing.T) {
 	}
 
 	if run_.Prop == "C20" {
-		n := run_.N(3000, 100000)
+		n := run_.N(6000, 150000)
 		for i := 0; i < n; i++ {
 			if !run_.Mine(i) || i < start {
 				continue
@@ -236,7 +236,7 @@ func TestEngine(t *testing.T) {
 	if run_.Prop == "C08" {
 		// the receive loop against firing timers and application goroutines (real parallelism inside the
 		// bubble): a receive call that never returns is decided by the watchdog
-		n := run_.N(2000, 60000)
+		n := run_.N(5000, 100000)
 		for i := 0; i < n; i++ {
 			if !run_.Mine(i) || total+i < start {
 				continue
